@@ -1,6 +1,7 @@
 package rules
 
 import (
+	"go/token"
 	"fmt"
 	"go/types"
 	"os"
@@ -614,6 +615,122 @@ func runC10(p *core.Prog, r *core.Report, tier string) {
 		}
 		r.Check(gen, "C10.f", base+"|new-relays-generated", p.Pos(mergeLoop.Stmt.Pos()), "relays only named by the proposer entry are generated", "relays only named by the proposer entry are never added")
 	}
+
+	// ---- (k) legacy documents: a builder's relay list is used only when the builder is enabled ----
+	nRel := 0
+	for _, f := range p.FuncsIn("services/blockrelay/v1") {
+		root := f
+		for root.Parent() != nil {
+			root = root.Parent()
+		}
+		switch root.Name() {
+		case "MarshalJSON", "UnmarshalJSON", "String":
+			continue
+		}
+		core.EachInstr(f, func(in ssa.Instruction) {
+			ld, ok := in.(*ssa.UnOp)
+			if !ok || ld.Op != token.MUL {
+				return
+			}
+			fa, ok := ld.X.(*ssa.FieldAddr)
+			if !ok {
+				return
+			}
+			id, _, ok := core.FieldOfAddr(fa)
+			if !ok || id.Name != "Relays" || !strings.HasSuffix(id.Owner, "v1.BuilderConfig") {
+				return
+			}
+			nRel++
+			base := fa.X
+			w := core.Unguarded(ds, f, nil, func(x ssa.Instruction) bool { return x == in }, func(c core.Cond) int {
+				if c.B == nil || c.B.Val == nil {
+					return -1
+				}
+				l2, ok := c.B.Val.(*ssa.UnOp)
+				if !ok || l2.Op != token.MUL {
+					return -1
+				}
+				f2, ok := l2.X.(*ssa.FieldAddr)
+				if !ok || f2.X != base {
+					return -1
+				}
+				if id2, _, ok := core.FieldOfAddr(f2); !ok || id2.Name != "Enabled" {
+					return -1
+				}
+				if c.BoolOnEdge(0) {
+					return 0
+				}
+				return 1
+			})
+			r.Check(w == nil, "C10.k", fmt.Sprintf("%s|relays-only-when-enabled#%d", core.FnKey(f), nRel), p.Pos(ld.Pos()), "the builder's relay list is read only where the same builder is enabled",
+				"a legacy builder's relay list is used without its 'enabled' flag having been tested: validators of a disabled builder that still lists relays are given those relays", p.WitnessText(w)...)
+		})
+	}
+	r.Floor("C10.k legacy relay list reads", nRel, 1)
+
+	// ---- (l) a resolver that remembers results keys them by everything the result depends on ----
+	nRes := 0
+	for _, rel := range cfgRels {
+		for _, f := range p.FuncsIn(rel) {
+			if f.Name() != "ProposerConfig" || f.Signature.Recv() == nil || f.Parent() != nil || len(f.Params) == 0 {
+				continue
+			}
+			nRes++
+			recv := f.Params[0]
+			var used []*ssa.Parameter
+			for _, prm := range f.Params[1:] {
+				if strings.HasSuffix(prm.Type().String(), "context.Context") || prm.Referrers() == nil || len(*prm.Referrers()) == 0 {
+					continue
+				}
+				used = append(used, prm)
+			}
+			// stores the resolver itself fills: sync.Map fields of the receiver, and receiver maps it inserts into
+			written := map[string]bool{}
+			core.EachInstr(f, func(in ssa.Instruction) {
+				if mu, ok := in.(*ssa.MapUpdate); ok {
+					if id, ok := core.FieldOfValue(mu.Map); ok {
+						written[id.String()] = true
+					}
+				}
+			})
+			nCache := 0
+			checkKey := func(in ssa.Instruction, key ssa.Value, what string) {
+				nCache++
+				kd := ds.D(key)
+				var missing []string
+				for _, prm := range used {
+					if !kd.Any(func(x *core.VD) bool { return x.Kind == "param" && x.Name == prm.Name() }) {
+						missing = append(missing, prm.Name())
+					}
+				}
+				r.Check(len(missing) == 0, "C10.l", fmt.Sprintf("%s|memo-key#%d", core.FnKey(f), nCache), p.Pos(in.Pos()), "remembered results are keyed by every input of the resolution",
+					"the resolver serves a remembered result from "+what+" keyed by "+kd.String()+", which leaves out "+strings.Join(missing, ", ")+": a result resolved for one input (e.g. without an account) is served for another, bypassing the documented precedence")
+			}
+			core.EachInstr(f, func(in ssa.Instruction) {
+				switch x := in.(type) {
+				case *ssa.Call:
+					c := x.Call.StaticCallee()
+					if c == nil || c.Signature.Recv() == nil || !strings.HasSuffix(c.Signature.Recv().Type().String(), "sync.Map") {
+						return
+					}
+					if c.Name() != "Load" && c.Name() != "LoadOrStore" && c.Name() != "LoadAndDelete" {
+						return
+					}
+					if fa, ok := x.Call.Args[0].(*ssa.FieldAddr); ok && fa.X == ssa.Value(recv) {
+						checkKey(in, x.Call.Args[1], "a sync.Map of the configuration")
+					}
+				case *ssa.Lookup:
+					if id, ok := core.FieldOfValue(x.X); ok && written[id.String()] {
+						checkKey(in, x.Index, "map "+id.String())
+					}
+				}
+			})
+			if nCache == 0 {
+				r.Hold("C10.l", core.FnKey(f)+"|no-memo", p.Pos(f.Pos()), "the resolver remembers no results: every call resolves from the configuration")
+			}
+		}
+	}
+	r.Floor("C10.l resolvers", nRes, 2)
 
 	// ---- (g) version dispatch ----
 	if f := p.Func("services/blockrelay", "", "UnmarshalJSON"); f != nil {
